@@ -231,8 +231,73 @@ def evaluate(case):
     return out
 
 
+DESCRIPTION_TEXTS = {
+    "one_line": "plain text",
+    "leading_space": " starts with a space",
+    "trailing_space": "ends with a space ",
+    "tab_inside": "col1\tcol2",
+    "leading_tab": "\tindented by a tab",
+    "two_lines": "first\nsecond",
+    "hanging_indent": "first\n    second indented\n    third indented",
+    "common_indent_all_lines": "  a\n  b\n  c",
+    "blank_first_line": "\nstarts after a blank line",
+    "blank_last_line": "ends before a blank line\n",
+    "blank_middle": "para one\n\npara two",
+    "quotes_and_backslash": "say \"hi\" and \\ and \"\"\" triple",
+    "unicode": "Zażółć ☃",
+    "crlf": "a\r\nb",
+    "spaces_only_line": "a\n   \nb",
+}
+
+
+def description_cases():
+    """Every description text x every place a description can be written.  The text is written as an ordinary (escaped) string literal, so
+    the source schema holds it byte for byte."""
+    out = []
+    for tn, text in DESCRIPTION_TEXTS.items():
+        lit = json.dumps(text, ensure_ascii=False)
+        places = {
+            "object": f"{lit}\ntype T {{ f: Int }}\ntype Query {{ t: T }}\n",
+            "field": f"type Query {{ {lit}\n f: Int }}\n",
+            "argument": f"type Query {{ f({lit}\n a: Int): Int }}\n",
+            "input_field": f"input I {{ {lit}\n a: Int }}\ntype Query {{ f(i: I): Int }}\n",
+            "input_object": f"{lit}\ninput I {{ a: Int }}\ntype Query {{ f(i: I): Int }}\n",
+            "enum": f"{lit}\nenum E {{ A }}\ntype Query {{ e: E }}\n",
+            "enum_value": f"enum E {{ {lit}\n A B }}\ntype Query {{ e: E }}\n",
+            "interface": f"{lit}\ninterface N {{ id: ID }}\ntype T implements N {{ id: ID }}\ntype Query {{ n: N t: T }}\n",
+            "union": f"type A {{ a: Int }}\n{lit}\nunion U = A\ntype Query {{ u: U }}\n",
+            "scalar": f"{lit}\nscalar S\ntype Query {{ s: S }}\n",
+            "directive": f"{lit}\ndirective @d(a: Int) on FIELD\ntype Query {{ f: Int }}\n",
+            "directive_argument": f"directive @d({lit}\n a: Int) on FIELD\ntype Query {{ f: Int }}\n",
+            "schema": f"{lit}\nschema {{ query: Query }}\ntype Query {{ f: Int }}\n",
+        }
+        for pn, sdl in places.items():
+            out.append((f"desc:{tn}@{pn}", sdl, {f"description_text:{tn}", f"description_place:{pn}"}))
+    return out
+
+
+def hierarchy_cases():
+    """Interface hierarchies: every order in which an interface / an object can list the interfaces it implements."""
+    out = []
+    base = "interface I1 { id: ID }\ninterface I2 implements I1 { id: ID a: Int }\ninterface J { j: Int }\n"
+    for p3 in itertools.permutations(("I1", "I2")):
+        for n in (2, 3, 4):
+            for pt in itertools.permutations(("I1", "I2", "I3", "J"), n):
+                if "I3" in pt and not {"I1", "I2"} <= set(pt) or "I2" in pt and "I1" not in pt:
+                    continue
+                fields = "id: ID a: Int b: Int" + (" j: Int" if "J" in pt else "")
+                sdl = base + f"interface I3 implements {' & '.join(p3)} {{ id: ID a: Int b: Int }}\ntype T implements {' & '.join(pt)} {{ {fields} }}\ntype Query {{ t: T i: I3 j: J }}\n"
+                out.append((f"impl:{'&'.join(p3)}/{'&'.join(pt)}", sdl, {"implements_order", f"interface_lists:{'&'.join(p3)}", f"object_lists:{'&'.join(pt)}"}))
+    return out
+
+
 def build_cases(tier):
     cases = []
+    for label, sdl, tags in description_cases() + hierarchy_cases():
+        build_schema(sdl)
+        cases.append(dict(sdl=sdl, components=(label,), format="py", vars=None, source="sdl", tags=tags))
+        if tier != "quick" or label.endswith(("@field", "@object")) or label.startswith("impl:"):
+            cases.append(dict(sdl=sdl, components=(label,), format="graphql", vars=None, source="sdl", tags=tags))
     names = list(COMPONENTS)
     combos = [(n,) for n in names] + list(itertools.combinations(names, 2))
     for combo in combos:
@@ -267,7 +332,7 @@ def main(tier):
     disagreements = 0
     distinct = set()
     for case, (st, r) in zip(cases, results):
-        feats = {f"component:{c}" for c in case["components"]} | {f"format:{case['format']}", f"source:{case['source']}", "vars:" + ("default" if not case["vars"] else case["vars"][0])}
+        feats = set(case.get("tags") or ()) | {f"component:{c}" for c in case["components"]} | {f"format:{case['format']}", f"source:{case['source']}", "vars:" + ("default" if not case["vars"] else case["vars"][0])}
         desc = {"components": list(case["components"]), "format": case["format"], "variables": case["vars"], "source": case["source"], "sdl": case["sdl"][:3000]}
         distinct.add(case["sdl"])
         if rep.triage:
